@@ -77,6 +77,12 @@ fn vf_index_edges_and_closure() {
             let none: HashSet<&String> = HashSet::new();
             match Index::new(&cfg, &none, work) {
                 Ok(ix) => {
+                    // C11: a target's index is its position in the configuration (it selects THAT target's argmap directory)
+                    if let Some(i) = (0..n).find(|&i| ix.get_target_index(&cfg.targets[i].path).ok().copied() != Some(i)) {
+                        bad += 1;
+                        if bad <= 3 { println!("VF-FAIL targets={:?} :: get_target_index({:?}) is {:?}, the target is number {} of the configuration (C11)", targets, cfg.targets[i].path, ix.get_target_index(&cfg.targets[i].path).ok(), i); }
+                        continue;
+                    }
                     let got = edges_of(&ix, work);
                     if got != want {
                         bad += 1;
